@@ -264,3 +264,46 @@ func (c *Ctx) pureModuleFn(f *ssa.Function) bool {
 	}
 	return pure
 }
+
+// initOnlyGlobal: a package variable whose elements/fields are written only by package initialisation
+// (its address is never stored to, or passed on, by any other function of the module).
+func (c *Ctx) initOnlyGlobal(g *ssa.Global) bool {
+	if c.initOnly == nil {
+		c.initOnly = map[*ssa.Global]bool{}
+		c.initOnlyDone = map[*ssa.Global]bool{}
+	}
+	if c.initOnlyDone[g] {
+		return c.initOnly[g]
+	}
+	c.initOnlyDone[g] = true
+	if g.Pkg == nil || !c.inModule(g.Pkg.Pkg) {
+		return false
+	}
+	ok := true
+	for fn := range allFunctions(c.Prog) {
+		if fn.Pkg != g.Pkg || fn.Name() == "init" || strings.HasPrefix(fn.Name(), "init#") {
+			continue
+		}
+		for _, b := range fn.Blocks {
+			for _, in := range b.Instrs {
+				for _, op := range in.Operands(nil) {
+					if *op != ssa.Value(g) {
+						continue
+					}
+					// allowed uses: load of the variable, or element/field address used only for loads
+					switch u := in.(type) {
+					case *ssa.UnOp:
+					case *ssa.IndexAddr, *ssa.FieldAddr:
+						if c.fieldAddrMutated(u.(ssa.Value), 0) {
+							ok = false
+						}
+					default:
+						ok = false
+					}
+				}
+			}
+		}
+	}
+	c.initOnly[g] = ok
+	return ok
+}
